@@ -12,9 +12,9 @@ import (
 type laneKey struct{ N, V, I int }
 
 type ORun struct {
-	Main    []simrt.Event              // callback events of non-item lanes, in log order
-	Lanes   map[laneKey][]simrt.Event  // batch item events per (node, visit, item)
-	All     []simrt.Event              // every event between run_start and run_end
+	Main    []simrt.Event             // callback events of non-item lanes, in log order
+	Lanes   map[laneKey][]simrt.Event // batch item events per (node, visit, item)
+	All     []simrt.Event             // every event between run_start and run_end
 	Cancels []simrt.Event
 	Start   *simrt.Event
 	End     *simrt.Event // nil if the run never returned
